@@ -96,7 +96,7 @@ def _c19_call(t, root):
 
 def c19_table(info):
     rows = _c19_rows(info)
-    out = ["def initTable : List Pyg.Init.Row := ["]
+    out = ["def initTable : List (Nat × Pyg.Init.Row) := ["]
     items = []
     b = lambda x: "true" if x else "false"  # noqa
     for r in rows:
@@ -107,8 +107,8 @@ def c19_table(info):
         # the configured root is the one the trace script wrote: <tmp>/root
         calls = ", ".join(_c19_call(t, root if (root or "").endswith("/root") else None) for t in r["trace"])
         fault = "none" if r["fault"] is None else f"some {r['fault']}"
-        items.append(f"  {{ cfg := {{ tls := {b(r['tls'])}, chroot := {b(r['chroot'])}, setuid := {b(r['setuid'])}, setgid := {b(r['setgid'])} }}, "
-                     f"fault := {fault}, trace := [{calls}], raised := {b(r['raised'] is not None)}, rootSlash := {b(r['root_after'] == '/')} }}")
+        items.append(f"  ({r.get('fclass', 0)}, {{ cfg := {{ tls := {b(r['tls'])}, chroot := {b(r['chroot'])}, setuid := {b(r['setuid'])}, setgid := {b(r['setgid'])} }}, "
+                     f"fault := {fault}, trace := [{calls}], raised := {b(r['raised'] is not None)}, rootSlash := {b(r['root_after'] == '/')} }})")
     out.append(",\n".join(items))
     out.append("]")
     return out
